@@ -242,3 +242,15 @@ package gomavlib
 //@                    rvField(logArg(1, 1), "SystemStatus") == 4 &&
 //@                    rvField(logArg(1, 1), "MavlinkVersion") == uint64(h.node.Dialect.Version)
 //@   modifies ghost:log
+
+// ---------------------------------------------------------------- FixFrame (C08)
+
+//@ func (*Node).FixFrame
+//@   let M0 = old(frame.SpecFrameMessage(fr))
+//@   requires n != nil && fr != nil && frame.SpecFrameMessage(fr) != nil
+//@   requires frame.SpecIsRaw(frame.SpecFrameMessage(fr)) ==> frame.SpecRawPayloadLen(fr) <= 255
+//@   ensures  [needs-dialect-entry] n.dialectRW == nil || !frame.UfDialectHas(n.dialectRW, M0.GetID()) ==> err != nil
+//@   ensures  [checksum-validates] err == nil ==> frame.SpecRawOK(fr) && frame.SpecChecksumOK(fr, frame.UfDialectExtra(n.dialectRW, M0.GetID()))
+//@   ensures  [signature-validates] err == nil && n.OutKey != nil && frame.SpecIsV2(fr) ==> frame.SpecSignatureOK(fr, n.OutKey)
+//@   ensures  [signed-flag-set-when-signing] err == nil && n.OutKey != nil && frame.SpecIsV2(fr) ==> frame.SpecSigFieldOK(fr) && frame.SpecIsSigned(fr)
+//@   modifies *fr
